@@ -68,7 +68,7 @@ func NewPipeline(w *World, opt Options) (*Pipeline, error) {
 	if err != nil {
 		return nil, err
 	}
-	p := &Pipeline{W: w, Opt: opt, Dir: dir, CfgDir: filepath.Join(dir, "cfg"), MapsDir: filepath.Join(dir, "maps")}
+	p := &Pipeline{W: w, Opt: opt, Dir: dir, CfgDir: filepath.Join(dir, "etc/haproxy"), MapsDir: filepath.Join(dir, "etc/haproxy/maps")}
 	for _, d := range []string{p.CfgDir, p.MapsDir, filepath.Join(dir, "tls"), filepath.Join(p.CfgDir, "lua"), filepath.Join(p.CfgDir, "errorfiles"), filepath.Join(dir, "var/lib/haproxy"), filepath.Join(dir, "var/run/haproxy")} {
 		if err := os.MkdirAll(d, 0o755); err != nil {
 			return nil, err
